@@ -4,7 +4,7 @@
    (identifier vs state), C12 (padding); here: once a rule is broken, a message of its family appears at the offending offset. *)
 From Coq Require Import List NArith Bool.
 From FP Require Import Model.Base Model.ItsWords Model.ItsFsm Model.Rdh Model.RdhChecks Model.Payload Model.CdpRunning Model.Scanner Model.Link Model.Collector.
-From FP Require Import Proofs.C02_proofs Proofs.C04_stave Proofs.C02_total.
+From FP Require Import Spec.WordLayout Proofs.Bits Proofs.C02_proofs Proofs.C04_stave Proofs.C02_total Proofs.C02_cdw.
 From FP Require Gen.Facts.
 Import ListNotations.
 Open Scope N_scope.
@@ -75,6 +75,25 @@ Theorem C02_tdh_must_not_continue_after_complete_packet : forall c s w, snd (adv
   tdh_continuation w <> 0 -> has_err (pos_of s) 42 (word_msgs c s w).
 Proof. exact (c02_tdh_after_done_continuation_when Gen.Facts.tdh_after_done_checks_continuation eq_refl eq_refl). Qed.
 
+(* calibration data words (checks_list.md: "CDW where user_field != previous CDW user_field: CDW index == 0").  The accessors
+   read the documented fields (user fields = bits 47:0, index = bits 71:48); the first data-phase word of a packet with identifier
+   0xF8 is reported with [E81] EXACTLY when the rule is broken against the CDW remembered from earlier packets of the link
+   (no other message for it, none at all without running checks), and it becomes the remembered one; anywhere else in the data
+   the identifier 0xF8 is no data word: [E70] *)
+Theorem C02_cdw_layout : forall w, word_ok w -> cdw_user_fields w = f80 w 0 48 /\ cdw_index w = f80 w 48 24.
+Proof. intros w H. split; [exact (cdw_user_fields_spec w H)|exact (cdw_index_spec w H)]. Qed.
+Theorem C02_cdw_rule : forall c s w, is_data_res (snd (advance (cs_fsm s) w)) -> cs_start_of_data s = true -> nb 9 w = Gen.Facts.cdw_id ->
+  exists s1 m, cdp_check c s w = Ok (s1, m) /\
+    (v_running c = true -> (has_err (pos_of s) 81 m <-> cdw_rule_broken (sw_cdw (cs_words s)) w) /\ sw_cdw (cs_words s1) = Some w) /\
+    (v_running c = false -> m = []) /\
+    (forall x, In x m -> err_at (pos_of s) 81 x) /\ cs_start_of_data s1 = false.
+Proof. exact c02_cdw_rule. Qed.
+Theorem C02_cdw_elsewhere_is_invalid_data : forall c s w, is_data_res (snd (advance (cs_fsm s) w)) -> cs_start_of_data s = false ->
+  nb 9 w = Gen.Facts.cdw_id ->
+  exists s1, cdp_check c s w = Ok (s1, [werr (set_counter s (wrap16 (cs_counter s + 1))) 70 w]) /\
+             sw_cdw (cs_words s1) = sw_cdw (cs_words s).
+Proof. exact c02_cdw_elsewhere. Qed.
+
 (* any reported error selects the configured exit status *)
 Theorem C02_exit : forall n, exit_code (Some n) Init_ok true = n.
 Proof. exact c02_exit. Qed.
@@ -96,4 +115,7 @@ Print Assumptions C02_ihw_stop_bit.
 Print Assumptions C02_tdh_must_continue.
 Print Assumptions C02_tdh_must_not_continue_after_ihw.
 Print Assumptions C02_tdh_must_not_continue_after_complete_packet.
+Print Assumptions C02_cdw_layout.
+Print Assumptions C02_cdw_rule.
+Print Assumptions C02_cdw_elsewhere_is_invalid_data.
 Print Assumptions C02_exit.
